@@ -183,6 +183,8 @@ func c07Day(c *vh.Ctx, run *nRun, i int) {
 			c.Violate("search", "run:pool-conservation:input-day:fast", fmt.Sprintf("%s: Σ(NFOS+MINFOS) decreases by %.6g", d.Date, -dd), payload())
 		}
 	}
+	// ---- crop side of the crediting, days without a crop, sums across reset dates
+	c07CreditDay(c, run, i, payload)
 	// ---- uptake and fixation credited once per day
 	if len(d.Subs) == 0 {
 		return
@@ -258,7 +260,7 @@ func deepTillageRuns(c *vh.Ctx, runs int) {
 }
 
 func checkC07(c *vh.Ctx) {
-	c.Res.Rule = "kernel: generated states of mineral (frozen / warm, dry … saturated), of the tillage branch of Nitro (depth 1-60 cm, both types), of nmove as first and as later sub-step, of Denitr/Denitmo; whole runs (legumes, extreme rain, management, deep tillage): every simulated day; non-trivial = distinct kernel state or simulated multi-sub-step day"
+	c.Res.Rule = "kernel: generated states of mineral (frozen / warm, dry … saturated), of the tillage branch of Nitro (depth 1-60 cm, both types), of nmove as first and as later sub-step, of Denitr/Denitmo; whole runs (legumes, extreme rain, management, deep tillage, peat, legumes cut green followed by other crops, silage maize with long fallow tails, first measurement after ammonium dressings): every simulated day — pools, counters, crediting on the crop side (ΔPESUM vs ΔAUFNASUM + ΔNFIXSUM), no uptake without a crop, sums across reset dates; non-trivial = distinct kernel state or simulated multi-sub-step day"
 	mineralKernelStage(c, c.N(2000, 30000), "C07")
 	tillKernelStage(c, c.N(800, 10000))
 	nmoveKernelStage(c, c.N(2000, 30000), "C07")
@@ -266,4 +268,6 @@ func checkC07(c *vh.Ctx) {
 	wholeRunStage(c, c.N(40, 500), true, c07Day)
 	peatRuns(c, c.N(4, 40), true, c07Day)
 	deepTillageRuns(c, c.N(3, 20))
+	creditRuns(c, c.N(12, 120))
+	lateMeasureRuns(c, c.N(8, 80), c07Day)
 }
